@@ -137,9 +137,10 @@ def print_axioms(audit_file, timeout=1200):
         raise Infra('audit timed out')
     out = p.stdout
     axioms = {}
-    for m in re.finditer(r"'([^']+)' depends on axioms: \[([^\]]*)\]", out, re.S):
+    # theorem names may end in primes: anchor at the start of the message line instead of excluding quotes
+    for m in re.finditer(r"^'([^\n]+?)' depends on axioms: \[([^\]]*)\]", out, re.S | re.M):
         axioms[m.group(1)] = [a.strip() for a in m.group(2).replace('\n', ' ').split(',') if a.strip()]
-    for m in re.finditer(r"'([^']+)' does not depend on any axioms", out):
+    for m in re.finditer(r"^'([^\n]+?)' does not depend on any axioms", out, re.M):
         axioms[m.group(1)] = []
     stmts = {}
     # `#check @thm` lines print as  `@thm : statement` possibly over several lines
